@@ -35,6 +35,12 @@ def cases(rng, tier):
                 pool.append((ty, base[:-1] + [base[-1] + b"\0"]))                # proper prefix
                 pool.append((ty, base[:-1] + [base[-1] + b"x"]))
                 pool.append((ty, base[:-1] + [base[-1][:-1]]))
+                if len(base) >= 2 or rng.random() < 0.5:
+                    # element-wise prefixes whose length differences cancel: same total size, same concatenation
+                    x = base[0]; t = rng.choice([b"\0", b"\0\0", b"b", rand_elem(rng, BINARY) or b"z"])
+                    pool.append((ty, [x + t, x] + base[2:]))
+                    pool.append((ty, [x, x + t] + base[2:]))
+                    pool.append((ty, [x + t[:1], x] + base[2:]))
             pool.append((ty, base[:-1]))                                         # fewer elements
             pool.append((ty, base + [base[0]]))
         other = STRING if ty == BINARY else BINARY if ty == STRING else rng.choice([t for t in FIXED if FIXED[t] == FIXED.get(ty, 0) and t != ty] or [ty])
